@@ -229,6 +229,18 @@ class LcInterp(Interp):
             for x, y in ((a, b), (b, a)):
                 if x[0] == "dig" and y[0] == "i" and y[1] == y[2] == 0:
                     return I(1 if base == "Ne" else 0)
+        if base in ("Gt", "Lt", "Ge", "Le"):
+            # sign tests of a symbolic (generic non-zero) digit: decided by the scenario's digit sign, both outcomes otherwise
+            for x, y, flip in ((a, b, False), (b, a, True)):
+                if x[0] == "dig" and y[0] == "i" and y[1] == y[2] == 0:
+                    fs = getattr(self.models, "digit_sign", None)
+                    if fs is None:
+                        return I(0, 1)
+                    positive = fs * x[3] > 0
+                    gt = base in ("Gt", "Ge")
+                    if flip:
+                        gt = not gt
+                    return I(1 if positive == gt else 0)
         if base == "Sub" and a[0] == "dig" and b[0] == "i" and b[1] == b[2] == 1:
             # (d - 1) resp. (-d - 1): the bucket index of a positive / negative symbolic digit; a[3] = +1 for d, -1 for -d
             return ("bidx", (a[1], a[2]), a[3])
